@@ -2,7 +2,7 @@
 from vf.driver import contract_units
 
 LEVEL = "proof"
-MODULES = ["contracts.c_access", "contracts.c_engine", "contracts.c_request", "contracts.c_attributes"]
+MODULES = ["contracts.c_access", "contracts.c_engine", "contracts.c_request", "contracts.c_attributes", "contracts.c_template"]
 EXPLANATION = ("The batch loop is proved with trace predicates over an arbitrary iteration (one result "
                "per item echoing operation and id, stop on first failure, no exception once an item was "
                "executed); each handler under contract is proved to have no store effect before it "
